@@ -5,7 +5,7 @@
 patch=$1; demo=$2; pkg=$3; re=$4
 export GOFLAGS=-mod=mod GOPROXY=off GOSUMDB=off GOTOOLCHAIN=local
 V=/tmp/vs-$$
-git -C /repo worktree add -q $V HEAD || exit 3
+git -C /repo worktree add -q --detach $V ${BASE:-HEAD} || exit 3
 trap "git -C /repo worktree remove --force $V" EXIT
 cd $V
 git apply "$patch" || { echo "PATCH DOES NOT APPLY"; exit 3; }
